@@ -17,8 +17,10 @@
 #include "http_alloc.h"
 #include "http_evutil.h"
 #include "http.c"
-#include "http_ref.h"
 #include "http_lines.h"
+#define REF_MAXLINES VP_L
+#define REF_MAXLINE (VP_N + 1)
+#include "http_ref.h"
 
 static struct bufferevent vp_bev;
 static char vp_inbuf_identity;
@@ -27,7 +29,7 @@ static int kf_ws_colon(const ref_u8 *l, size_t n)
 {
 	size_t i;
 	if (n == 0 || ref_is_ows(l[0])) return 0;
-	for (i = 0; i < n; i++)
+	for (i = 0; i < VP_N && i < n; i++)
 		if (l[i] == ':') return i > 0 && ref_is_ows(l[i - 1]);
 	return 0;
 }
@@ -35,17 +37,17 @@ static int kf_ows_htab(const ref_u8 *l, size_t n)
 {
 	size_t i;
 	if (n == 0 || ref_is_ows(l[0])) return 0;
-	for (i = 0; i < n; i++)
+	for (i = 0; i < VP_N && i < n; i++)
 		if (l[i] == ':') break;
-	if (i == n) return 0;
+	if (i >= n) return 0;
 	i++;
-	while (i < n && l[i] == ' ') i++;
+	{ size_t j; for (j = 0; j < VP_N && i < n && l[i] == ' '; j++) i++; }
 	return i < n && l[i] == '\t';
 }
 static int kf_value_ctl(const ref_u8 *l, size_t n)
 {
 	size_t i;
-	for (i = 0; i < n; i++)
+	for (i = 0; i < VP_N && i < n; i++)
 		if (l[i] == '\0' || l[i] == '\r') return 1;
 	return 0;
 }
@@ -140,8 +142,8 @@ void harness_headers(void)
 				if (f->folded) {
 					/* obs-fold replaced by SP: compare modulo trailing OWS (an all-blank continuation line leaves a trailing SP) */
 					size_t rl = f->value_len;
-					while (rl > 0 && ref_is_ows(f->value[rl - 1])) rl--;
-					while (vl > 0 && ref_is_ows((ref_u8)kv->value[vl - 1])) vl--;
+					for (k = 0; k < VP_L * (VP_N + 1) && rl > 0 && ref_is_ows(f->value[rl - 1]); k++) rl--;
+					for (k = 0; k < VP_L * (VP_N + 1) && vl > 0 && ref_is_ows((ref_u8)kv->value[vl - 1]); k++) vl--;
 					VP_ASSERT(same && vl == rl, "C23: folded field value handed on != unfolded value (obs-fold -> SP)");
 				} else {
 					VP_ASSERT(same && vl == f->value_len, "C23: field value handed on != OWS-trimmed field value on the wire");
@@ -152,11 +154,14 @@ void harness_headers(void)
 		VP_ASSERT(nf == H.nfields, "C23: number of fields handed on != number of field lines");
 #if !VP_KF_ONLY
 		if (st == ALL_DATA_READ && nf == 1) VP_WITNESS("section with one field complete");
-		if (st == ALL_DATA_READ && nf == 1 && H.f[0].folded) VP_WITNESS("section with a folded field complete");
+		if (st == MORE_DATA_EXPECTED && nf == 1 && H.f[0].folded) VP_WITNESS("folded field, more data expected");
+#if VP_L >= 2
 		if (st == MORE_DATA_EXPECTED && nf == 2) VP_WITNESS("two fields, more data expected");
+#endif
 #endif
 	}
 #if VP_KF_ONLY
 	VP_WITNESS("known-finding region reached");
 #endif
+	evhttp_clear_headers(&in_headers);
 }
